@@ -69,7 +69,7 @@ def line_reaction(draw, fmt, elements=None, extra_markers=()):
         code = 999
     nr = draw(st.integers(1, nr_max))
     if fmt == "uclchem" and code:
-        nr = draw(st.integers(1, 2))
+        nr = 2 if code in ("DIFF", "CHEMDES") and draw(st.integers(0, 3)) > 0 else draw(st.integers(1, 2))
     # marker tokens occupy a reactant cell
     if (MARKERS[fmt] or extra_markers) and fmt not in ("uclchem", "krome") and nr < nr_max and draw(st.integers(0, 3)) == 0:
         tok = draw(st.sampled_from(list(MARKERS[fmt]) + list(extra_markers)))
